@@ -164,26 +164,24 @@ def run(prog, rep, tier='quick', config='default'):
         return
     for fn, c in gets:
         k = '%s|keyed-by-current-security' % fn.name
-        lp = None
-        for (nc, header, body) in fn.iterator_loops():
-            if c.bb in body:
-                lp = (nc, body)
         entry = [x for x in fn.calls if x.callee.endswith('delta_list::txs_to_delta_list')]
-        if lp is None or not entry:
-            rep.violation('R16b', k, where=c.where(), fn=fn.name, detail='the opening position is not looked up inside the per-security loop that calls txs_to_delta_list')
+        if not entry:
+            rep.violation('R16b', k, where=c.where(), fn=fn.name, detail='the opening position is not looked up in the function that calls txs_to_delta_list for the security')
             continue
-        nc, body = lp
-        ko = mir.provenance(fn, c.args[1], follow_all_call_args=False)
         e = entry[0]
-        to = mir.provenance(fn, e.args[0], follow_all_call_args=False)
+        # key and rows must come from the same map entry — possibly through the parameters of a helper into its caller's loop
+        ko = mir.deep_origins(prog, fn, c.args[1], depth=3, follow_all=False)
+        to = mir.deep_origins(prog, fn, e.args[0], depth=3, follow_all=False)
         so = mir.provenance(fn, e.args[1], follow_all_call_args=True)
-        same_elem = (nc in ko.calls or nc.dst['l'] in ko.locals) and (nc in to.calls or nc.dst['l'] in to.locals)
+        k_next = {x for x in ko.calls if x.short == 'next' and x.decl.endswith('Iterator::next')}
+        t_next = {x for x in to.calls if x.short == 'next' and x.decl.endswith('Iterator::next')}
+        same_elem = bool({(x.fn.name, x.bb) for x in k_next} & {(x.fn.name, x.bb) for x in t_next})
         feeds = c in so.calls
         if same_elem and feeds and not ko.binops:
             rep.ok('R16b', k, where=c.where(), fn=fn.name,
-                   detail='get(&sec) uses the loop element whose rows are passed to txs_to_delta_list together with the looked-up status')
+                   detail='get(&sec) uses the map entry whose rows are passed to txs_to_delta_list together with the looked-up status')
         else:
             rep.violation('R16b', k, where=c.where(), fn=fn.name,
                           detail='the opening position handed to the bookkeeping of a security is not looked up under that security\'s own key '
-                                 '(key from loop element: %s, status from this look-up: %s)' % (same_elem, feeds))
+                                 '(key and rows from the same map entry: %s, status from this look-up: %s)' % (same_elem, feeds))
     rep.extra['opening_map_use_sites'] = n_uses
